@@ -389,6 +389,116 @@ def scen_before_start(env):
               and not circ.is_ready() and PB.started == 0, info=lambda: res)
 
 
+def scen_error_during_init(env, kind, use_run):
+    """the first error arrives while the circuit is still in its asynchronous initialisation (another block's
+    init_async is pending): it stops the simulation at once and is the one reported - by run_forever(), Circuit.error,
+    shutdown(), run() - a second, later error does not replace it; wait_init() raises; nothing is left running"""
+    circ = fresh_circuit()
+    d = env.real('init_duration', 2, 10)
+    t1 = env.real('t_first', 0, 2, hi_open=True)
+    t2 = env.real('t_second', 0, 12)
+    log = []
+
+    class Slow(edzed.AddonAsync, edzed.SBlock):
+        async def init_async(self):
+            try:
+                await asyncio.sleep(d)
+                self.set_output(1)
+            finally:
+                log.append('init_async ended')
+
+    class PB(edzed.SBlock):
+        def init_regular(self):
+            self.set_output(0)
+
+        def stop(self):
+            log.append('pb stopped')
+            super().stop()
+
+        def _event_x(self, *, fail=None, **data):
+            if fail is not None:
+                raise RuntimeError(f'marker-{fail}')
+            return 'ok'
+
+    class MT(edzed.AddonMainTask, edzed.SBlock):
+        def init_regular(self):
+            self.set_output(0)
+
+        async def _maintask(self):
+            await asyncio.sleep(t1)
+            raise KeyError('marker-1')
+    Slow('slow', init_timeout=20.0)
+    pb = PB('pb')
+    if kind == 'task':
+        MT('mt', stop_timeout=1.0)
+    edzed.Event('_ctrl', 'abort')
+    res = {}
+
+    async def first():
+        if kind == 'task':
+            return
+        await asyncio.sleep(t1)
+        if kind == 'abort':
+            circ.abort(OSError('marker-1'))
+        elif kind == 'handler':
+            try:
+                pb.event('x', fail=1)
+            except RuntimeError:
+                pass                     # the caller catches it: fatal all the same
+        elif kind == 'ctrl-abort':
+            circ.findblock('_ctrl').event('abort', source='marker-1', error='marker-1')
+
+    async def second():
+        await asyncio.sleep(t2)
+        circ.abort(ValueError('marker-2'))
+
+    async def waiter():
+        try:
+            await circ.wait_init()
+            res['wait_init'] = 'returned'
+        except asyncio.CancelledError:
+            res['wait_init'] = 'cancelled by the harness (still waiting)'
+            raise
+        except Exception as err:
+            res['wait_init'] = err
+
+    async def main():
+        loop = asyncio.get_running_loop()
+        helpers = [asyncio.create_task(c()) for c in (first, second, waiter)]
+        try:
+            if use_run:
+                await asyncio.create_task(edzed.run())
+            else:
+                await asyncio.create_task(circ.run_forever())
+            res['r'] = None
+        except BaseException as err:
+            res['r'] = err
+        res['t_end'] = loop.time()
+        try:
+            await circ.shutdown()
+            res['s'] = None
+        except BaseException as err:
+            res['s'] = err
+        for _ in range(3):              # wait_init()'s caller resumes two loop iterations after the end of the task
+            await asyncio.sleep(0)
+        res['ready'] = circ.is_ready()
+        for h in helpers:
+            h.cancel()
+        for _ in range(3):
+            await asyncio.sleep(0)
+        res['leftover'] = [t.get_name() for t in asyncio.all_tasks() if t is not asyncio.current_task() and not t.done()]
+    vloop.run(main())
+    if not bool(t1 < t2):          # forks: the second abort() is the later one on the paths judged here
+        return
+    env.note('error-during-async-init')
+    marker = lambda e: e is not None and 'marker-1' in (str(e) + str(getattr(e, '__cause__', '')))
+    env.check('first-error-reported', marker(res['r']) and marker(circ.error) and marker(res['s']), info=lambda: (kind, res, circ.error))
+    env.check('stops-at-first', bool(eq_(res['t_end'], t1)), info=lambda: (res['t_end'], str(t1)))
+    env.check('not-ready-after', res['ready'] is False and isinstance(res.get('wait_init'), edzed.EdzedInvalidState),
+              info=lambda: res)
+    env.check('terminates', 'pb stopped' in log and not res['leftover'], info=lambda: (log, res))
+
+
 def scen_nonfatal_init(env, which):
     """failures of asynchronous initialisation, state restoration or clean-up are only logged"""
     circ = fresh_circuit()
@@ -485,8 +595,10 @@ def scen_abort_and_raise(env):
 
 
 def shards(tier):
-    out = [{'name': 'abort before start', 'scenario': 'scen_before_start'},
-           {'name': 'abort and raise', 'scenario': 'scen_abort_and_raise'}]
+    _extra = [{'name': f'first error during the asynchronous initialisation: {k} run={r}', 'scenario': 'scen_error_during_init',
+               'params': {'kind': k, 'use_run': r}} for k in ('abort', 'handler', 'task', 'ctrl-abort') for r in (False, True)]
+    out = _extra + [{'name': 'abort before start', 'scenario': 'scen_before_start'},
+                    {'name': 'abort and raise', 'scenario': 'scen_abort_and_raise'}]
     for w in ('restore', 'init_async', 'init_regular', 'stop', 'stop_async'):
         out.append({'name': f'non-fatal phase {w}', 'scenario': 'scen_nonfatal_init', 'params': {'which': w}})
     n = BOUNDS[tier]['sources']
